@@ -154,10 +154,32 @@ class MapV:
 
 
 class StrV:
-    __slots__ = ("s",)
+    """a string: concrete literal (s) or symbolic (t, uninterpreted sort; only == / !=)."""
+    __slots__ = ("s", "t")
 
-    def __init__(self, s):
+    def __init__(self, s=None, t=None):
         self.s = s
+        self.t = t
+
+    def term(self):
+        if self.t is not None:
+            return self.t
+        return z3.Const("strlit!" + "".join(ch if ch.isalnum() else "_" for ch in str(self.s))[:60] + f"!{abs(hash(self.s)) % 10**8}", StrSort)
+
+    def __repr__(self):
+        return f"StrV({self.s!r},{self.t})"
+
+
+class AbsV:
+    """value of an abstract (uninterpreted) sort, e.g. a whole `chunks` tuple-of-tuples."""
+    __slots__ = ("t", "sort")
+
+    def __init__(self, t, sort):
+        self.t = t
+        self.sort = sort
+
+    def __repr__(self):
+        return f"AbsV({self.t})"
 
 
 class NanV:
@@ -173,12 +195,27 @@ class ObjV:
     def __init__(self, cls, fields):
         self.cls = cls
         self.fields = dict(fields)
+        self.ex = None
+        self.base = cls
+
+    def get(self, attr):
+        """field as seen by contract code (created on first access from the declared type)."""
+        v = self.ex.obj_field(self, attr)
+        if isinstance(v, Opt) and v.definite():
+            return _i(v.v)
+        if isinstance(v, BoolV):
+            return v.t
+        if isinstance(v, StrV):
+            return v.term()
+        if isinstance(v, AbsV):
+            return v.t
+        return v
 
     def __repr__(self):
         return f"ObjV<{self.cls}>({list(self.fields)})"
 
 
-SYM_CLASSES = (Opt, BoolV, RealV, SliceV, SeqV, TupV, MapV, ObjV)
+SYM_CLASSES = (Opt, BoolV, RealV, SliceV, SeqV, TupV, MapV, ObjV, AbsV)
 
 
 def is_sym(x):
@@ -518,6 +555,14 @@ def step_ok(s):
 # integer sequences
 # --------------------------------------------------------------------------
 if z3 is not None:
+    StrSort = z3.DeclareSort("PyStr")
+    ABS_SORTS = {}
+
+    def abs_sort(name):
+        if name not in ABS_SORTS:
+            ABS_SORTS[name] = z3.DeclareSort("Abs_" + name)
+        return ABS_SORTS[name]
+
     f_pydiv = z3.Function("pydiv", z3.IntSort(), z3.IntSort(), z3.IntSort())
     f_pymod = z3.Function("pymod", z3.IntSort(), z3.IntSort(), z3.IntSort())
     SeqSort = z3.DeclareSort("IntSeq")
@@ -642,6 +687,17 @@ def ssum(t):
     if isinstance(t, TupV):
         return prefix(t, len(t.items))
     return sum(t)
+
+
+def seq_equal(a, b):
+    """tuple equality."""
+    if isinstance(a, SeqV) or isinstance(b, SeqV):
+        ta, tb = a.t, b.t
+        j = z3.Int("j!eq")
+        return z3.And(f_len(ta) == f_len(tb),
+                      z3.ForAll([j], z3.Implies(z3.And(0 <= j, j < f_len(ta)), f_at(ta, j) == f_at(tb, j)),
+                                patterns=[f_at(ta, j), f_at(tb, j)]))
+    return tuple(a) == tuple(b)
 
 
 def forall_idx(t_or_n, body, name="j"):
